@@ -120,6 +120,57 @@ func runC04(c *runCfg) error {
 			emitPair("corrupt", flatCase(0, "corrupt", cfg, raw, nil))
 		}
 	}
+	// integer fields at their boundaries: in a valid extended-query exchange every 2- and 4-byte
+	// window of one message body (names, counts, lengths, format codes, OIDs, row limits) is
+	// overwritten with sign/width boundary values
+	{
+		cfg := g.robustCfg()
+		q := g.queryName(&cfg)
+		victims := [][]byte{
+			mParse([]byte("s"), q, 2),
+			mBind([]byte("p"), []byte("s"), []int{0, 1}, []bindP{{v: []byte("abc")}, {null: true}}, []int{0}),
+			mBind(nil, nil, nil, []bindP{{v: []byte("v")}}, nil),
+			mExecute([]byte("p"), 0),
+			mDescribe('P', []byte("p")),
+			mQuery(q),
+		}
+		vals4 := []uint32{0x7fffffff, 0x80000000, 0xfffffffe, 0xfffffffd, 0xffff0000, 0x0000ffff}
+		vals2 := []uint16{0x7fff, 0x8000, 0xffff, 0xfffe}
+		step := 1
+		if c.tier != "thorough" {
+			step = 2
+		}
+		for vi, victim := range victims {
+			body := victim[5:]
+			for pos := 0; pos < len(body); pos++ {
+				var variants [][]byte
+				if pos+4 <= len(body) {
+					for k, v := range vals4 {
+						if (pos+k+vi)%step != 0 {
+							continue
+						}
+						b := append([]byte{}, body...)
+						copy(b[pos:], be32b(v))
+						variants = append(variants, b)
+					}
+				}
+				if pos+2 <= len(body) {
+					for k, v := range vals2 {
+						if (pos+k+vi)%step != 0 {
+							continue
+						}
+						b := append([]byte{}, body...)
+						copy(b[pos:], be16b(int(v)))
+						variants = append(variants, b)
+					}
+				}
+				for _, b := range variants {
+					raw := cat(stdStartup, mParse([]byte("s"), q, 0), msg(victim[0], b), mBind([]byte("p"), []byte("s"), nil, nil, nil), mExecute([]byte("p"), 0), mSync())
+					emitPair("intfields", flatCase(0, "intfields", cfg, raw, nil))
+				}
+			}
+		}
+	}
 	// fault enumeration: the connection breaks at every read (= every byte offset) and at every write
 	sessions := 3
 	if c.tier == "thorough" {
@@ -214,6 +265,11 @@ func runC04(c *runCfg) error {
 			c.stat("class_alloc")
 			id++
 		}
+	}
+	// the placeholder counter that statement parsers apply to the client's query text:
+	// hostile index values and marker counts must neither panic nor allocate beyond the budget
+	for i, q := range hostileQueries() {
+		emitPP(c, 900000+i, "pp_hostile", []byte(q))
 	}
 	_ = context.Background
 	return nil
